@@ -15,12 +15,14 @@ Align8(n) == ((n + 7) \div 8) * 8
 Init == /\ img \in Images /\ signers = img.presigned /\ fresh = TRUE /\ last = [op |-> "init"]
 Sign(c) == /\ signers' = Append(signers, c) /\ fresh' = FALSE
            /\ last' = [op |-> "sign", c |-> c, res |-> "ok"] /\ UNCHANGED img
+(* the signer (token, HSM) fails: an error, and the image object is as before - a later Sign / Verify / serialisation is unaffected *)
+SignFail(c) == /\ last' = [op |-> "signfail", c |-> c, res |-> "error"] /\ UNCHANGED <<img, signers, fresh>>
 Reparse == /\ fresh' = TRUE /\ last' = [op |-> "reparse", c |-> "-", res |-> "ok"] /\ UNCHANGED <<img, signers>>
 (* verification succeeds exactly for the certificates that signed (same issuer+serial with another key, or the same key under another name, do not count) *)
 Signed(c) == \E i \in 1..Len(signers) : signers[i] = c      \* same certificate: issuer+serial and key
 Verify(c) == /\ last' = [op |-> "verify", c |-> c, res |-> IF Signed(c) THEN "true" ELSE "nottrue"]
              /\ UNCHANGED <<img, signers, fresh>>
-Next == (\E c \in Certs : Sign(c) \/ Verify(c)) \/ Reparse
+Next == (\E c \in Certs : Sign(c) \/ Verify(c) \/ SignFail(c)) \/ Reparse
 Spec == Init /\ [][Next]_vars
 
 (* ---- file-level well-formedness of the serialised image, as a function of the abstract state ---- *)
